@@ -44,7 +44,7 @@ var c6NameSets = [][]string{
 
 func genC06(t *rapid.T) c6Case {
 	names := rapid.SampledFrom(c6NameSets).Draw(t, "names")
-	o := modOpts{gens: names, minPkgs: 1, maxPkgs: 3, locals: true, tagDensity: 2, pkgTagBias: 1, maxDecls: 5, imports: true}
+	o := modOpts{gens: names, minPkgs: 1, maxPkgs: 3, locals: true, tagDensity: 2, pkgTagBias: 1, maxDecls: 5, imports: true, std: true}
 	c := c6Case{ModCase: genMod(t, o)}
 	for _, n := range names {
 		g := c6Gen{Name: n, Mode: "fixed", Alias: rapid.Bool().Draw(t, "alias"), Defers: rapid.IntRange(0, 2).Draw(t, "defers")}
